@@ -90,6 +90,7 @@ class FixedMessage(AbstractMessage):
     __pow__ = _no_op
     __mul__ = _no_op
     __div__ = _no_op
+    __truediv__ = _no_op
     default = _no_op
     _multiply = _no_op
     _divide = _no_op
